@@ -100,7 +100,8 @@ def secListsB (bound : Nat) (s : Section) (ents : List (Nat × Entry)) : Bool :=
 /-! ### The trailer chain of a file, computed (executable hypothesis of `C02_chain`) -/
 
 /-- Follow the chain from an optional position: every revision a plain section or a hybrid pair whose
-stream carries neither `/Prev` nor `/XRefStm`.  `none` when the file has another shape. -/
+stream carries neither `/Prev` nor `/XRefStm`; a `/Prev` pointing at its own section ends the chain.
+`none` when the file has another shape. -/
 def chainOf (ph : Phys) : Nat → Option Nat → Option (List Nat × List (Section × Trailer))
   | _, none => some ([], [])
   | 0, some _ => none
@@ -112,7 +113,9 @@ def chainOf (ph : Phys) : Nat → Option Nat → Option (List Nat × List (Secti
       | .error _ => none
       | .ok (s, tr) =>
         match tr.xrefstm with
-        | none => (chainOf ph fuel tr.prev).map (fun r => (p :: r.1, (s, tr) :: r.2))
+        | none =>
+          if tr.prev == some p then some ([p], [(s, tr)])      -- circular /Prev: the chain ends here
+          else (chainOf ph fuel tr.prev).map (fun r => (p :: r.1, (s, tr) :: r.2))
         | some x =>
           match lookupNat ph.secs x with
           | none => none
@@ -121,7 +124,8 @@ def chainOf (ph : Phys) : Nat → Option Nat → Option (List Nat × List (Secti
             | .error _ => none
             | .ok (sx, trx) =>
               if trx.xrefstm.isNone && trx.prev.isNone then
-                (chainOf ph fuel tr.prev).map (fun r => (p :: x :: r.1, (s, tr) :: (sx, trx) :: r.2))
+                if tr.prev == some p then some ([p, x], [(s, tr), (sx, trx)])
+                else (chainOf ph fuel tr.prev).map (fun r => (p :: x :: r.1, (s, tr) :: (sx, trx) :: r.2))
               else none
 
 def nodupNat : List Nat → Bool
